@@ -232,6 +232,7 @@ def run(ctx: Ctx) -> Result:
             lines.append((dict(sf), w.bytes + l1.bytes)); lines.append((dict(sf), wsig.bytes + l3.bytes))
             # the single-script lock (tweak scalar, then the adapter): bound to the tweak point it was built for
             s_pub = T.make_adapter_lock_pub(X, Tp, flags); s_prv = T.make_adapter_lock_prv(X, t_raw, flags)
+            builds.append((f'BUILD2 adapter_lock_pub {X.hex()} {Tp.hex()} {int(flags, 16)}', s_pub.bytes.hex()))
             if s_pub.bytes != s_prv.bytes:
                 viol('make_adapter_lock_prv vs make_adapter_lock_pub(X, t*G)', inp, s_pub.bytes.hex(), s_prv.bytes.hex())
             t2_raw = V.rbytes(rng, 32); T2p = nb.crypto_scalarmult_ed25519_base_noclamp(clamp(t2_raw))
